@@ -327,6 +327,31 @@ fn parse_config(buf: &str) -> Value {
             if let Some(k) = r.split(',').next().and_then(|x| x.trim().parse::<i64>().ok()) { m.insert("max_iter".into(), json!(k)); }
         }
     }
+    // "  linear algebra: direct / qdldl, precision: 64 bit (1 thread)"
+    for l in buf.lines() {
+        if let Some(r) = l.trim().strip_prefix("linear algebra:") {
+            let kind = r.split('/').next().unwrap_or("").trim().to_string();
+            let name = r.split('/').nth(1).and_then(|x| x.split(',').next()).unwrap_or("").trim().to_string();
+            let prec = r.split("precision:").nth(1).and_then(|x| x.trim().split_whitespace().next()).unwrap_or("").to_string();
+            let thr = if let Some(t) = r.split('(').nth(1) { t.split_whitespace().next().and_then(|x| x.parse::<i64>().ok()).unwrap_or(-1) } else { 0 };
+            m.insert("linalg".into(), json!({"kind": kind, "name": name, "precision": prec, "threads": thr}));
+        }
+    }
+    // chordal decomposition block
+    {
+        let mut ch = serde_json::Map::new();
+        let mut inblk = false;
+        for l in buf.lines() {
+            if l.starts_with("chordal decomposition:") { inblk = true; continue; }
+            if inblk {
+                if l.trim().is_empty() { break; }
+                for piece in l.split(',') {
+                    if let Some((k, v)) = piece.split_once('=') { ch.insert(k.trim().to_string(), json!(v.trim())); }
+                }
+            }
+        }
+        if inblk { m.insert("chordal".into(), Value::Object(ch)); }
+    }
     // the settings block as an ordered list of (key, value) pairs exactly as printed
     let mut pairs: Vec<Value> = vec![];
     let mut in_settings = false;
@@ -440,7 +465,19 @@ pub fn print_case(run: usize, p: &Problem, dir: &str) -> Value {
             *ccount.entry(name.to_string()).or_insert(0i64) += 1;
             cdims.entry(name.to_string()).or_default().push(ConeSpec::from_clarabel(c).numel());
         }
-        let removed = (p.m() as i64) - (d.m as i64);
+        // chordal decomposition facts from the read-only view (None: not decomposed)
+        let chordal_int: Value = match clarabel::verif::chordal_view(d) {
+            None => Value::Null,
+            Some(v) => {
+                let st = p.settings();
+                let onoff = |b: bool| if b { "on" } else { "false" };
+                let npsd = |cs: &[SupportedConeT<f64>]| cs.iter().filter(|c| matches!(c, SupportedConeT::PSDTriangleConeT(_))).count();
+                json!({"compact format": onoff(st.chordal_decomposition_compact), "dual completion": onoff(st.chordal_decomposition_complete_dual),
+                       "merge method": st.chordal_decomposition_merge_method, "PSD cones initial": format!("{}", npsd(&v.init_cones)),
+                       "PSD cones decomposable": format!("{}", v.trees.len()), "PSD cones after merges": format!("{}", npsd(&d.cones))})
+            }
+        };
+        let removed = clarabel::verif::presolve_view(d).map(|v| v.keep.iter().filter(|k| !**k).count() as i64).unwrap_or(0);
         let sol = &s1.solution;
         let lr = last_row(&b1);
         let tok = |k: usize| -> f64 { lr.as_ref().and_then(|r| r.get(k)).and_then(|x| x.parse::<f64>().ok()).unwrap_or(f64::NAN) };
@@ -457,6 +494,9 @@ pub fn print_case(run: usize, p: &Problem, dir: &str) -> Value {
             "parsed": rec_ipm::parse_print(&b1), "config": parse_config(&b1),
             "internal": {"n": d.n, "m": d.m, "nnzP": d.P.nnz(), "nnzA": d.A.nnz(), "ncones": d.cones.len(),
                          "removed": removed, "has_presolver": removed > 0, "cones": ccount, "dims": cdims,
+                         "chordal": chordal_int, "chordal_active": !chordal_int.is_null(),
+                         "linalg": {"kind": if s1.info.linsolver.direct { "direct" } else { "indirect" }, "name": s1.info.linsolver.name,
+                                    "precision": "64", "threads": s1.info.linsolver.threads},
                          "max_iter": p.settings().max_iter, "settings": expected_settings(&p.settings())},
             "status": STATUS_NAMES[sol.status as usize], "iterations": sol.iterations,
             "last": {"has": lr.is_some(), "iter": lr.as_ref().and_then(|r| r.first()).and_then(|x| x.parse::<i64>().ok()).unwrap_or(-1),
